@@ -176,6 +176,9 @@ class Env:
             p.set(bpf, "bpf", self.kernel.bpf)
             p.set(arraymap, "mmap", self.kernel.mmap)
             p.set(arraymap, "cpu_count", lambda: self.online_cpus)
+            if hasattr(arraymap, "possible_cpus"):
+                # reads /sys/devices/system/cpu/possible: the simulated machine's answer
+                p.set(arraymap, "possible_cpus", lambda: self.kernel.possible_cpus)
             if self.monitor is not None:
                 self.monitor.install(p, bpf)
         root = logging.getLogger()
@@ -191,6 +194,8 @@ class Env:
                      ebpfcat_mod.ParallelEtherCat.get_ethertype.__code__,
                      ebpfcat_mod.FastEtherCat.register_sync_group.__wrapped__.__code__,
                      lock.FMMULock.__init__.__code__]
+            import ebpfcat.hashmap as hashmap
+            codes.append(hashmap.TheDict.__iter__.__code__)
             self.stall = StallGuard(codes, self.stall_limit)
             self.stall.start()
         return self
